@@ -115,6 +115,10 @@ public:
   using T_PointerType = typename Abi::T_PointerType;
   using T_ShortType = typename Abi::T_ShortType;
   using needs_internal_lookup_symbol = void;
+#ifdef VM_GRANT_DENY
+  // variant that offers the grant / deny interface; what it answers is scripted by the harness
+  using can_grant_deny_access = void;
+#endif
   using Self = rlbox_vm_sandbox<Abi, RegionBits, UseFinder, NSlots>;
 
   static constexpr uintptr_t RegionSize = uintptr_t(1) << RegionBits;
@@ -153,6 +157,9 @@ public:
   // test knob: keep destroyed regions reserved (PROT_NONE) until release_deferred(), so
   // that region addresses are never reused within one execution
   static inline bool defer_unmap = false;
+  // harness knob: FALSE = representations are NOT confined to the region when they are turned
+  // into addresses (base + rep, like plugins that rely on RLBox's own range checks)
+  static inline bool confine_pointers = true;
   // harness knob: like many real plugins, do not clear the region base of a destroyed instance
   // (its object then still "recognises" its former addresses if anybody asks it)
   static inline bool keep_base_after_destroy = false;
@@ -306,7 +313,7 @@ protected:
       uintptr_t idx = static_cast<uintptr_t>(p) % TableSize;
       return const_cast<vm_table_entry*>(&table[idx]);
     } else {
-      return reinterpret_cast<void*>(base + (static_cast<uintptr_t>(p) & RegionMask));
+      return reinterpret_cast<void*>(base + (confine_pointers ? (static_cast<uintptr_t>(p) & RegionMask) : static_cast<uintptr_t>(p)));
     }
   }
 
@@ -416,6 +423,24 @@ protected:
   inline bool impl_is_pointer_in_app_memory(const void* p) { return !impl_is_pointer_in_sandbox_memory(p); }
 
   inline size_t impl_get_total_memory() { return reported_total; }
+
+#ifdef VM_GRANT_DENY
+  // 0: refuse (success = false, pointer handed back unchanged); 1: accept
+  static inline int grant_mode = 0;
+  static inline int deny_mode = 0;
+  template<typename T>
+  inline T* impl_grant_access(T* src, size_t, bool& success)
+  {
+    success = grant_mode == 1;
+    return src;
+  }
+  template<typename T>
+  inline T* impl_deny_access(T* src, size_t, bool& success)
+  {
+    success = deny_mode == 1;
+    return src;
+  }
+#endif
 
   inline void* impl_get_memory_location() { return reinterpret_cast<void*>(base); }
 
